@@ -1,6 +1,9 @@
 (** Proofs about the model of proxy/grpc_handler.go (Model/GrpcPool.v). *)
 From Coq Require Import String List NArith Bool Lia Permutation.
 From Fabio Require Import Lib.Outcome Lib.Bytes Model.GrpcPool.
+From Fabio Require Model.Glob Model.Lookup Proofs.Lookup.
+Module ML := Fabio.Model.Lookup.
+Module PL := Fabio.Proofs.Lookup.
 Import ListNotations.
 Local Open Scope N_scope.
 
@@ -274,70 +277,71 @@ Proof.
     (rewrite count_dials_dial; destruct (beq v u) eqn:E; [apply beq_eq in E; congruence | lia]).
 Qed.
 
-(* ---- the table ---- *)
-Lemma first_some_Some {A B} (f : A -> option B) l b : first_some f l = Some b -> exists a, In a l /\ f a = Some b.
+(* ---- the table: route selection is C03's lookup ---- *)
+Lemma route_targets_in t k p ts : route_targets t k p = Some ts ->
+  ts <> [] /\ exists rs, assoc k t = Some rs /\ In (p, ts) rs.
 Proof.
-  induction l as [|a l IH]; cbn [first_some]; [discriminate|].
-  destruct (f a) eqn:E.
-  - intros H; inversion H; subst. exists a. split; [now left | exact E].
-  - intros H. destruct (IH H) as [a' [H1 H2]]. exists a'. split; [now right | exact H2].
-Qed.
-Lemma first_some_None {A B} (f : A -> option B) l : first_some f l = None -> forall a, In a l -> f a = None.
-Proof.
-  induction l as [|a l IH]; cbn [first_some]; [intros _ a []|].
-  destruct (f a) eqn:E; [discriminate|]. intros H a' [<-|H']; [exact E | now apply IH].
-Qed.
-Lemma first_match_Some path rs r : first_match path rs = Some r -> In r rs /\ has_prefix path (fst r) = true.
-Proof.
-  induction rs as [|r' rs IH]; cbn [first_match]; [discriminate|].
-  destruct (has_prefix path (fst r')) eqn:E.
-  - intros H; inversion H; subst. split; [now left | exact E].
-  - intros H. destruct (IH H). split; [now right | assumption].
-Qed.
-Lemma first_match_None path rs : first_match path rs = None -> forall r, In r rs -> has_prefix path (fst r) = false.
-Proof.
-  induction rs as [|r' rs IH]; cbn [first_match]; [intros _ r []|].
-  destruct (has_prefix path (fst r')) eqn:E; [discriminate|]. intros H r [<-|H']; [exact E | now apply IH].
-Qed.
-
-Lemma lookup_host_Some t h path ts : lookup_host t h path = Some ts ->
-  ts <> [] /\ exists rs pth, assoc (lower h) t = Some rs /\ In (pth, ts) rs /\ has_prefix path pth = true.
-Proof.
-  unfold lookup_host. destruct (assoc (lower h) t) as [rs|] eqn:E; [|discriminate].
-  destruct (first_match path rs) as [[pth ts']|] eqn:F; [|discriminate].
+  unfold route_targets. destruct (assoc k t) as [rs|] eqn:E; [|discriminate].
+  destruct (find (fun r : route => beq (fst r) p) rs) as [[p' ts']|] eqn:F; [|discriminate].
   destruct ts' as [|x ts']; [discriminate|]. intros H; inversion H; subst.
-  apply first_match_Some in F. cbn [fst] in F. split; [discriminate|]. exists rs, pth. tauto.
+  apply find_some in F. destruct F as [F1 F2]. cbn [fst] in F2. apply beq_eq in F2. subst p'.
+  split; [discriminate|]. exists rs. tauto.
 Qed.
 
-(* the synthetic request: host = the single dsthost value, path = the method path *)
-Theorem lookup_sound t noglob host path ts : lookup t noglob host path = Some ts ->
+(* the backend of a call is chosen among the targets of the route that C03's model of
+   Table.Lookup selects for (host = the single dsthost value or "", path = the parsed method
+   path) with the prefix matcher, no TLS, and the configured GlobMatchingDisabled *)
+Theorem lookup_is_c03 t noglob host path :
+  lookup t noglob host path =
+  match ML.lookup (to_c03 t) host false path ML.MPrefix noglob with
+  | Some (k, p, _) => route_targets t k p
+  | None => None
+  end.
+Proof. reflexivity. Qed.
+
+Theorem icpt_lookup_is_c03 t noglob m p :
+  icpt_lookup t noglob (Some m) (Some p) =
+  Some (match ML.lookup (to_c03 t) (dsthost m) false p ML.MPrefix noglob with
+        | Some (k, p', _) => route_targets t k p'
+        | None => None
+        end).
+Proof. reflexivity. Qed.
+
+(* with C03_lookup_sound: the route is a candidate in C03's sense -- its host key matches the
+   host named by dsthost (glob or literal as configured; case-insensitively, :80 removed) or
+   it has no host, and its path is a prefix of the method path *)
+Theorem lookup_sound t noglob host path ts :
+  PL.wf_keys (to_c03 t) ->
+  ML.F_C03_gobwas_overlap noglob false ML.MPrefix (to_c03 t) host path = false ->
+  lookup t noglob host path = Some ts ->
   ts <> [] /\
-  exists key rs pth,
-    (key = [] \/ (In key (map fst t) /\ norm_host key = norm_host host)) /\
-    assoc (lower key) t = Some rs /\ In (pth, ts) rs /\ has_prefix path pth = true.
+  exists k p id, ML.is_candidate noglob false ML.MPrefix host path (k, p, id) = true /\
+                 In (k, p, id) (ML.all_routes (to_c03 t)) /\
+                 exists rs, assoc k t = Some rs /\ In (p, ts) rs.
 Proof.
-  unfold lookup. intros H. apply first_some_Some in H. destruct H as [key [Hk H]].
-  apply lookup_host_Some in H. destruct H as [Hne [rs [pth [H1 [H2 H3]]]]].
-  split; [exact Hne|]. exists key, rs, pth. split; [|tauto].
-  apply in_app_or in Hk. destruct Hk as [Hk|[<-|[]]]; [right | now left].
-  unfold matching_keys in Hk. apply filter_In in Hk. destruct Hk as [Hk E]. apply beq_eq in E. tauto.
+  intros W G. unfold lookup.
+  destruct (ML.lookup (to_c03 t) host false path ML.MPrefix noglob) as [[[k p] id]|] eqn:L; [|discriminate].
+  intros H. apply route_targets_in in H. destruct H as [Hne Hrs].
+  destruct (PL.lookup_sound _ _ _ _ _ _ _ W G L) as [Hin Hc].
+  split; [exact Hne|]. exists k, p, id. tauto.
 Qed.
 
 Theorem lookup_none t noglob host path : lookup t noglob host path = None ->
-  forall key, (key = [] \/ (In key (map fst t) /\ norm_host key = norm_host host)) ->
-  lookup_host t key path = None.
+  ML.lookup (to_c03 t) host false path ML.MPrefix noglob = None \/
+  exists k p id, ML.lookup (to_c03 t) host false path ML.MPrefix noglob = Some (k, p, id) /\
+                 route_targets t k p = None.
 Proof.
-  unfold lookup. intros H key Hk. apply (first_some_None _ _ H). apply in_or_app.
-  destruct Hk as [->|[Hk E]]; [right; now left | left].
-  unfold matching_keys. apply filter_In. split; [exact Hk | rewrite E; apply beq_refl].
+  unfold lookup. destruct (ML.lookup (to_c03 t) host false path ML.MPrefix noglob) as [[[k p] id]|]; [|now left].
+  intros H. right. exists k, p, id. tauto.
 Qed.
 
 Lemma lookup_in_table t noglob host path ts : lookup t noglob host path = Some ts ->
   forall u, In u ts -> In u (table_urls t).
 Proof.
-  intros H u Hu. apply lookup_sound in H. destruct H as [_ [key [rs [pth [_ [H1 [H2 _]]]]]]].
-  unfold table_urls. apply in_flat_map. exists (lower key, rs). split; [now apply assoc_In|].
-  cbn [snd]. apply in_flat_map. exists (pth, ts). split; [exact H2 | exact Hu].
+  unfold lookup. destruct (ML.lookup (to_c03 t) host false path ML.MPrefix noglob) as [[[k p] id]|]; [|discriminate].
+  intros H u Hu. apply route_targets_in in H. destruct H as [_ [rs [H1 H2]]].
+  unfold table_urls. apply in_flat_map. exists (k, rs). split; [now apply assoc_In|].
+  cbn [snd]. apply in_flat_map. exists (p, ts). split; [exact H2 | exact Hu].
 Qed.
 
 Theorem lookup_by_method_and_dsthost t noglob m m' upath :
@@ -724,17 +728,19 @@ Proof.
   split; [repeat constructor | vm_compute; reflexivity].
 Qed.
 
+Definition ex_gtbl : table :=
+  [(bs "*.beta.example", [(bs "/pkg.Svc", [ex_v])]); ([], [(bs "/", [ex_u])])].
 Example lookup_nonvacuous :
   lookup ex_tbl false (dsthost ex_md) (bs "/pkg.Svc/Get") = Some [ex_v] /\
   lookup ex_tbl false (dsthost []) (bs "/pkg.Svc/Get") = Some [ex_u] /\
   lookup ex_tbl true (dsthost ex_md) (bs "/pkg.Svc/Get") = Some [ex_v] /\
-  lookup [(bs "betatest", [(bs "/pkg.Svc", [ex_v])])] false [] (bs "/pkg.Svc/Get") = None.
+  lookup [(bs "betatest", [(bs "/pkg.Svc", [ex_v])])] false [] (bs "/pkg.Svc/Get") = None /\
+  (* a dsthost that only a glob key matches: routed by the pattern when glob matching is on,
+     by the host-less route when it is off *)
+  lookup ex_gtbl false (bs "X.Beta.Example:80") (bs "/pkg.Svc/Get") = Some [ex_v] /\
+  lookup ex_gtbl true (bs "X.Beta.Example:80") (bs "/pkg.Svc/Get") = Some [ex_u] /\
+  lookup ex_gtbl false [] (bs "/pkg.Svc/Get") = Some [ex_u].
 Proof. vm_compute. repeat split. Qed.
-
-Lemma reachable_wf ng t ops : wf (s_pool (run ng (mks t p_init) ops)).
-Proof. apply run_wf. exact wf_init. Qed.
-Lemma sequential_no_orphans_init ops urls c : orphan (snd (p_run (urls, p_init) ops)) c = false.
-Proof. apply (sequential_no_orphans ops (urls, p_init)); [exact wf_init | exact accounted_init]. Qed.
 
 (* ---- message size limits ---- *)
 Theorem relay_within_limits rx tx req resp :
